@@ -22,9 +22,17 @@ pub struct ConIterOfVec<T: Send + Sync> {
 
 impl<T: Send + Sync> Drop for ConIterOfVec<T> {
     fn drop(&mut self) {
-        let current = self.counter().current();
-        if current <= self.vec_len {
-            let _remaining_vec_to_be_dropped = unsafe { self.split_off_right(current) };
+        let current = self.counter.current();
+        let vec = self.vec.get_mut();
+        let len = vec.len();
+        let begin = current.min(len);
+        // SAFETY: elements at `0..begin` are moved out to the callers, `begin..len` are still owned by the vector;
+        // the length is reset first so that dropping the vector only releases its buffer.
+        unsafe {
+            let ptr = vec.as_mut_ptr();
+            vec.set_len(0);
+            std::ptr::drop_in_place(std::ptr::slice_from_raw_parts_mut(ptr.add(begin), len - begin));
+            ManuallyDrop::drop(vec);
         }
     }
 }
